@@ -22,11 +22,11 @@ SOUP = ["a", "X", "_", "0", "'", '"', "`", "\\", "(", ")", "[", "]", "{", "}", "
         "*", "-", ":", "é", "\x01"]
 TAIL = " .\nsentinel(1).\nsentinel(2).\n"
 RULE = ("(a) quick: all strings of length <= 3 plus length 4 over a 19-character sub-alphabet; thorough: all of length <= 4 "
-        "plus length 5 over a 12-character sub-alphabet, "
+        "plus length 5 over a 11-character sub-alphabet, "
         "over the 26-character soup alphabet, each followed by ' .\\nsentinel(1).\\nsentinel(2).\\n'; (b) every single-character "
         "deletion, insertion and substitution (quick: 10 replacement characters; thorough: all 26) of a 68-clause corpus of (mostly valid) "
         "text, followed by the sentinels; and, under each of the operator tables default + op(1100,xfy,'|'), op(700,xfx,a), "
-        "op(200,xfy,a), op(200,fy,a), op(200,xf,a), op(0,yfx,-): all strings of length <= 4 over a 12-character (thorough 15) "
+        "op(200,xfy,a), op(200,fy,a), op(200,xf,a), op(0,yfx,-): all strings of length <= 4 over a 12-character "
         "sub-alphabet and the corpus mutations with 4 (thorough 10) replacement characters. Inputs are files read with read_term/2 until end_of_file (cap 16/24 reads). "
         "Non-trivial: at least one read raises a syntax error.")
 LEVEL_TEXT = ("bounded exhaustive exploration of the real lexer/parser/stream stack in worker subprocesses (a panic, crash or "
@@ -35,7 +35,7 @@ ASSUMPTIONS = ["driver transport; input files are written byte-exactly by the ex
                "reference segmentation is only applied to texts without quotes, back-quotes, %, /*, 0' and control characters",
                "an end token is a '.' that starts a token and is followed by layout or end of file (ISO 6.4.8)"]
 MIN_OUTCOMES = 3
-SUB5 = ["a", "0", "'", '"', "\\", "(", ")", ",", "|", ".", " ", "\n"]
+SUB5 = ["a", "0", "'", '"', "\\", "(", ")", ",", ".", " ", "\n"]
 SUB4 = ["a", "X", "_", "0", "'", '"', "\\", "(", ")", "[", ",", "|", ".", " ", "\n", "%", "/", "*", "\x01"]
 MUT_Q = ["a", "X", "0", "'", '"', "\\", "(", ".", " ", "\x01"]
 
@@ -52,7 +52,7 @@ TABLES = {
 VARIANTS = [t for t in TABLES if t != "default"]
 # reduced families run under each variant table
 VSOUP = {"quick": ["a", "X", "0", "(", ")", "[", "]", ",", "|", ".", " ", "-"],
-         "thorough": ["a", "X", "0", "'", "(", ")", "[", "]", "{", ",", "|", ".", " ", "-", "\n"]}
+         "thorough": ["a", "X", "0", "(", ")", "[", "]", ",", "|", ".", " ", "-"]}
 VMUT = {"quick": ["a", "|", "(", "-"], "thorough": MUT_Q}
 
 CORPUS = [
@@ -149,7 +149,7 @@ def _bound_default(tier):
     alpha = SOUP if tier == "thorough" else MUT_Q
     nm = sum(1 + sum(1 for _ in mutations(c, alpha)) for c in CORPUS)
     return "%d soup strings (%s) + %d corpus mutations (%d clauses, %d replacement characters)" % (
-        ns, "length <= 4, and length 5 over 12 characters" if tier == "thorough" else "length <= 3, and length 4 over 19 characters",
+        ns, "length <= 4, and length 5 over 11 characters" if tier == "thorough" else "length <= 3, and length 4 over 19 characters",
         nm, len(CORPUS), len(alpha))
 
 
